@@ -47,6 +47,13 @@ impl RespParser {
             return Ok(None);
         }
         
+        // A proper prefix of the raw "PING" shortcut below is not an error yet:
+        // the rest may arrive in the next read
+        if self.buffer.len() - self.position < 4 &&
+           b"PING".starts_with(&self.buffer[self.position..]) {
+            return Ok(None);
+        }
+        
         // Special handling for raw protocol (e.g., redis-benchmark sometimes sends raw "PING")
         if self.position + 4 <= self.buffer.len() && 
            &self.buffer[self.position..self.position+4] == b"PING" {
